@@ -178,6 +178,9 @@ def build_harness(variant):
         bvariant = variant
         if variant == 'dyn':        # dynamically linked plain build, for valgrind
             bvariant, benv['STATIC'] = 'plain', '0'
+        if variant == 'countasan':  # failable/counting allocator under AddressSanitizer
+            bvariant, benv['STATIC'] = 'count', '0'
+            benv['EXTRA_CFLAGS'] = '-fsanitize=address,undefined -fno-sanitize-recover=all -fno-omit-frame-pointer'
         rc, out_txt = sh([os.path.join(VERIF, 'harness', 'build.sh'), bvariant, out], env=benv)
         if rc != 0:
             raise BuildError('harness build failed (%s):\n%s' % (variant, out_txt[-3000:]))
